@@ -32,14 +32,20 @@
  * Everything is void once the environment has withheld a connection establishment for
  * tcp.connect_timeout (3 s) of virtual time: then the attempt legitimately fails.
  *
+ *   pairing  a client whose outbound leg the relay cannot set up (destination not listening: ux/uxf connect fails
+ *            synchronously; or cfault=1: the relay's xcm_connect_a itself returns NULL/EMFILE, a labelled fault
+ *            alternative) is simply dropped - EOF or reset on that client only; the relay stays up, the other
+ *            connections keep carrying messages both ways, later clients are served.
  * params: lc=<transport client<->relay> ls=<transport relay<->server> script=<name>
- *         gran=loop|api  menu=<hex>  certs=<dir>  horizon=<steps>
+ *         gran=loop|api  menu=<hex>  certs=<dir>  horizon=<steps>  dev=all|relay  cfault=0|1
  */
 #define _GNU_SOURCE
 #include "hcommon.h"
 
 #include <event.h>
 #include <fcntl.h>
+#include <sys/epoll.h>
+#include <sys/eventfd.h>
 #include <sys/socket.h>
 #include <sys/stat.h>
 
@@ -49,7 +55,7 @@
 #define MAXOPS 16
 #define MAXPROG 48
 #define MAXMSG 65535
-#define MAXCONN 2
+#define MAXCONN 3
 
 enum opk { OP_CONNECT, OP_SEND, OP_RECV, OP_FINISH, OP_CLOSE, OP_RECV_EOF, OP_HANG };
 
@@ -83,6 +89,8 @@ struct side {
     int graceful;            /* script close after a successful flush */
     int close_disturbed;     /* the environment deviated inside xcm_close */
     int unexpected;          /* ended although the peer was alive (reported on the spot) */
+    int first_consumed;      /* server side: its first receive was taken while identifying the connection */
+    int expect_drop;         /* the relay cannot set up this client's outbound leg: the client is simply dropped */
     int may_block;           /* the script lets this side wait for ever (its peer never reads) */
     int last_rc, last_errno;
     int done;
@@ -95,6 +103,8 @@ static struct xcm_socket *g_server;
 static char g_lc[12], g_ls[12], g_legs[32], g_script[16], g_certs[256];
 static char g_raddr[128], g_saddr[128];
 static int g_bytestream, g_gran_api, g_dev_relay_only, g_first_cap = MAXMSG;
+static int g_listen_at_start = 1, g_cfault, g_relay_connects, g_abort_efd = -1, g_sync[4] = { -1, -1, -1, -1 };
+static int g_connect_order[MAXCONN], g_n_connect_order;
 static int64_t g_t0;
 
 /* relay */
@@ -310,6 +320,19 @@ struct xcm_socket *__wrap_xcm_connect_a(const char *addr, const struct xcm_attr_
     if (!in_relay())
         return __real_xcm_connect_a(addr, attrs);
     relay_point("R:connect");
+    int nth = g_relay_connects++;
+    if (g_cfault && mc_choose(2, MC_FAULT, "fault:R:xcm_connect_a=EMFILE") == 1) {
+        /* descriptor exhaustion: socket() fails, xcm_connect_a returns NULL at once.  The relay's listen queue is
+           FIFO, so this is the outbound leg of the nth client that connected */
+        if (nth < g_n_connect_order)
+            C[g_connect_order[nth]].expect_drop = 1;
+        uint64_t one = 1;
+        if (write(g_abort_efd, &one, sizeof one) < 0) {
+        }
+        mc_observe("R connect -> EMFILE (injected)");
+        errno = EMFILE;
+        return NULL;
+    }
     mc_api_begin("xcm_connect_a", 1);
     struct xcm_socket *c = __real_xcm_connect_a(addr, attrs);
     int e = errno;
@@ -534,7 +557,7 @@ static void terminal(struct side *x, const char *op, int err)
 {
     struct side *p = x->peer;
     x->term_errno = err;
-    if (excused())
+    if (excused() || x->expect_drop)
         return;
     if (p && (p->gave_up || p->closed))
         return;
@@ -548,7 +571,7 @@ static void saw_eof(struct side *x)
 {
     struct side *p = x->peer;
     x->eof_seen = 1;
-    if (excused())
+    if (excused() || x->expect_drop)
         return;
     if (p && (p->closed || p->gave_up))
         return;
@@ -812,10 +835,30 @@ static int connect_side(struct side *x)
     return 0;
 }
 
+/* "!n" posts, "?n" awaits synchronisation point n between the two applications (out of band: think of an operator) */
+static int prog_sync(const char **pp)
+{
+    const char *p = *pp;
+    if (*p != '!' && *p != '?')
+        return 0;
+    int n = p[1] - '0';
+    if (*p == '!') {
+        uint64_t one = 1;
+        if (write(g_sync[n], &one, sizeof one) < 0) {
+        }
+        mc_observe("sync %d posted", n);
+    } else
+        mc_wait_readable(g_sync[n], "sync");
+    *pp = p + 1;
+    return 1;
+}
+
 static void task_client(void *arg)
 {
     (void)arg;
     for (const char *p = g_cprog; *p; p++) {
+        if (prog_sync(&p))
+            continue;
         g_cur[0] = &C[*p - '0'];
         step(g_cur[0]);
     }
@@ -843,14 +886,32 @@ static int identify(const unsigned char *buf, int rc)
     return -1;
 }
 
-static struct xcm_socket *accept_one(void)
+static int client_dropped(struct side *x) { return C[x->conn].expect_drop; }
+
+static struct xcm_socket *accept_one(struct side *x)
 {
     struct xcm_attr_map *at = mk_attrs();
     struct xcm_socket *s = NULL;
     for (;;) {
+        if (client_dropped(x) || !g_server)
+            break;
         if (API("xcm_await", 1, xcm_await(g_server, XCM_SO_ACCEPTABLE)) < 0)
             break;
-        mc_wait_readable(xcm_fd(g_server), "accept-wait");
+        if (g_cfault) {
+            /* wait for a connection - or for the news that the relay could not make the one we wait for */
+            int ep = epoll_create1(0);
+            struct epoll_event ev = { .events = EPOLLIN };
+            epoll_ctl(ep, EPOLL_CTL_ADD, xcm_fd(g_server), &ev);
+            epoll_ctl(ep, EPOLL_CTL_ADD, g_abort_efd, &ev);
+            mc_wait_readable(ep, "accept-wait");
+            close(ep);
+            uint64_t v;
+            if (read(g_abort_efd, &v, sizeof v) < 0) {
+            }
+            if (client_dropped(x))
+                break;
+        } else
+            mc_wait_readable(xcm_fd(g_server), "accept-wait");
         mc_sched_point("accept");
         s = API("xcm_accept_a", 1, xcm_accept_a(g_server, at));
         if (s)
@@ -888,7 +949,7 @@ static int ensure_bound(struct side *x)
         if (n_unid == 0) {
             if (n_accepted >= g_nconn)
                 return -1;
-            struct xcm_socket *s = accept_one();
+            struct xcm_socket *s = accept_one(x);
             if (!s)
                 return -1;
             n_accepted++;
@@ -913,7 +974,7 @@ static int ensure_bound(struct side *x)
             mc_wait_readable(fd, "first-recv");
         }
         mc_set_progress(1);
-        unid[0] = unid[1];
+        memmove(&unid[0], &unid[1], (MAXCONN - 1) * sizeof unid[0]);
         n_unid--;
         int k = rc > 0 ? identify(first, rc) : -1;
         if (rc <= 0) {
@@ -945,6 +1006,7 @@ static int ensure_bound(struct side *x)
                         y->pc = 1;
                 } else
                     y->pc = 1;
+                y->first_consumed = y->pc == 1;
             }
         } else {
             if (rc == 0)
@@ -962,17 +1024,45 @@ static int ensure_bound(struct side *x)
 static void task_server(void *arg)
 {
     (void)arg;
-    API("xcm_await", 1, xcm_await(g_server, XCM_SO_ACCEPTABLE));
+    if (g_server)
+        API("xcm_await", 1, xcm_await(g_server, XCM_SO_ACCEPTABLE));
     g_relay_task = mc_task_create("R", task_relay, NULL);
     if (g_dev_relay_only)
         env_cfg()->only_task = g_relay_task;
     for (const char *p = g_sprog; *p; p++) {
+        if (prog_sync(&p))
+            continue;
+        if (*p == 'u') {            /* the destination stops listening; its established connections stay */
+            mc_sched_point("unlisten");
+            API("xcm_close", 1, xcm_close(g_server));
+            g_server = NULL;
+            mc_observe("T stops listening");
+            continue;
+        }
+        if (*p == 'l') {            /* ... and listens (again) */
+            mc_sched_point("listen");
+            struct xcm_attr_map *at = mk_attrs();
+            g_server = API("xcm_server_a", 1, xcm_server_a(g_saddr, at));
+            xcm_attr_map_destroy(at);
+            if (!g_server)
+                mc_fail("internal/server-create", "xcm_server_a(%s): %s", g_saddr, errname(errno));
+            mc_observe("T listens");
+            continue;
+        }
         struct side *x = &S[*p - '0'];
         g_cur[1] = x;
         if (x->done)
             continue;
+        if (client_dropped(x)) {
+            x->done = 1;
+            continue;
+        }
         if (!x->bound && ensure_bound(x) < 0) {
             x->done = 1;
+            continue;
+        }
+        if (x->first_consumed) {    /* this program step was the receive that identified the connection */
+            x->first_consumed = 0;
             continue;
         }
         step(x);
@@ -1086,26 +1176,78 @@ static void build_script(const char *name)
         add(s1, OP_RECV_EOF, MAXMSG); add(s1, OP_CLOSE, 0);
         strcpy(g_cprog, "01010101010");
         strcpy(g_sprog, "0011");
+    } else if (!strcmp(name, "P1")) {
+        /* pairing phase: c0 is relayed and talks; the destination stops listening (keeps s0); c1 connects to the relay,
+           whose outbound connect fails synchronously: c1 is dropped; c0<->s0 carry on both ways; the destination
+           listens again; c2 is served; c0<->s0 carry on */
+        struct side *c2 = &C[2], *s2 = &S[2];
+        g_nconn = 3;
+        add(c, OP_SEND, 4); add(c, OP_RECV, MAXMSG); add(c, OP_SEND, 300); add(c, OP_RECV, MAXMSG);
+        add(c, OP_SEND, 2); add(c, OP_RECV, MAXMSG); add(c, OP_FINISH, 0); add(c, OP_CLOSE, 0);
+        add(s, OP_RECV, MAXMSG); add(s, OP_SEND, 6); add(s, OP_RECV, MAXMSG); add(s, OP_SEND, 300);
+        add(s, OP_RECV, MAXMSG); add(s, OP_SEND, 1); add(s, OP_RECV_EOF, MAXMSG); add(s, OP_CLOSE, 0);
+        c1->expect_drop = 1;
+        add(c1, OP_SEND, 5); add(c1, OP_RECV_EOF, MAXMSG); add(c1, OP_CLOSE, 0);
+        add(c2, OP_SEND, 7); add(c2, OP_RECV, MAXMSG); add(c2, OP_FINISH, 0); add(c2, OP_CLOSE, 0);
+        add(s2, OP_RECV, MAXMSG); add(s2, OP_SEND, 9); add(s2, OP_RECV_EOF, MAXMSG); add(s2, OP_CLOSE, 0);
+        /* c0: connect send recv | wait "not listening" | c1: connect send recv-eof close | c0: send recv |
+           wait "listening" | c2: all | c0: the rest */
+        strcpy(g_cprog, "000" "?0" "1111" "00" "?1" "22222" "0000");
+        strcpy(g_sprog, "00" "u!0" "00" "l!1" "2222" "0000");
+    } else if (!strcmp(name, "P2")) {
+        /* the destination has never listened: c0 is dropped; then it listens and c1 is served */
+        g_nconn = 2;
+        g_listen_at_start = 0;
+        c->expect_drop = 1;
+        add(c, OP_SEND, 5); add(c, OP_RECV_EOF, MAXMSG); add(c, OP_CLOSE, 0);
+        add(c1, OP_SEND, 7); add(c1, OP_RECV, MAXMSG); add(c1, OP_SEND, 300); add(c1, OP_RECV, MAXMSG);
+        add(c1, OP_FINISH, 0); add(c1, OP_CLOSE, 0);
+        add(s1, OP_RECV, MAXMSG); add(s1, OP_SEND, 9); add(s1, OP_RECV, MAXMSG); add(s1, OP_SEND, 1);
+        add(s1, OP_RECV_EOF, MAXMSG); add(s1, OP_CLOSE, 0);
+        strcpy(g_cprog, "0000" "!0" "?1" "1111111");
+        strcpy(g_sprog, "?0" "l!1" "111111");
     } else
         mc_fail("internal/unknown-script", "unknown script %s", name);
     if (!g_cprog[0])
         prog_default(g_cprog, c);
     if (!g_sprog[0])
         prog_default(g_sprog, s);
-    if (g_nconn == 2) {
+    if (g_nconn >= 2) {
         /* the server application takes the first receive before it knows whom a connection belongs to;
-           every client must send its opening message before the client application first waits */
-        g_first_cap = s->ops[0].len < s1->ops[0].len ? s->ops[0].len : s1->ops[0].len;
-        for (int k = 0; k < 2; k++)
+           every client must send its opening message before the client application first waits on that connection */
+        g_first_cap = MAXMSG + 1;
+        for (int k = 0; k < g_nconn; k++) {
+            if (!S[k].nops)
+                continue;
             if (S[k].ops[0].k != OP_RECV && S[k].ops[0].k != OP_RECV_EOF)
-                mc_fail("internal/script", "server scripts of two-connection scenarios must start with a receive");
+                mc_fail("internal/script", "server scripts of multi-connection scenarios must start with a receive");
+            if (S[k].ops[0].len < g_first_cap)
+                g_first_cap = S[k].ops[0].len;
+        }
+    }
+    /* order in which the clients connect to the relay (= order of the relay's accepts: listen queues are FIFO) */
+    for (const char *p = g_cprog; *p; p++) {
+        if (*p == '!' || *p == '?') {
+            p++;
+            continue;
+        }
+        int k = *p - '0', seen = 0;
+        for (int i = 0; i < g_n_connect_order; i++)
+            seen |= g_connect_order[i] == k;
+        if (!seen)
+            g_connect_order[g_n_connect_order++] = k;
     }
     /* every op of every side must be in its program */
     for (int t = 0; t < 2; t++)
         for (int k = 0; k < g_nconn; k++) {
             int n = 0;
-            for (const char *p = t ? g_sprog : g_cprog; *p; p++)
+            for (const char *p = t ? g_sprog : g_cprog; *p; p++) {
+                if (*p == '!' || *p == '?') {
+                    p++;
+                    continue;
+                }
                 n += *p - '0' == k;
+            }
             struct side *x = t ? &S[k] : &C[k];
             if (n != x->nops)
                 mc_fail("internal/script", "program of %s has %d steps for %d ops", x->name, n, x->nops);
@@ -1171,6 +1313,8 @@ static void relay_summary(char *b, size_t n)
 static struct rpair *pair_of_conn(int k)
 {
     int claimed[MAXCONN] = { 0 };
+    for (int c = 0; c < g_nconn; c++)
+        claimed[c] = C[c].expect_drop;
     for (int p = 0; p < g_nrp; p++)
         if (g_rp[p].conn >= 0) {
             if (g_rp[p].conn == k)
@@ -1212,7 +1356,7 @@ static void final_checks(enum mc_end end)
     /* stall: nobody can run, nothing is pending in the environment, yet an endpoint still waits */
     for (int t = 0; t < 2; t++) {
         struct side *x = g_cur[t];
-        if (!x || x->done || x->may_block || excused() || g_fatal)
+        if (!x || x->done || x->may_block || excused() || g_fatal || (x->is_server && client_dropped(x)))
             continue;
         const char *what;
         if (x->is_server && !x->bound)
@@ -1297,7 +1441,10 @@ static void mk_addr(char *out, size_t n, const char *tp, int which)
     int id = getpid();
     if (!strcmp(tp, "ux"))
         snprintf(out, n, "ux:mcxr-%d-%d", id, which);
-    else
+    else if (!strcmp(tp, "uxf")) {
+        snprintf(out, n, "uxf:/verif/build/run/hrelay-%d-%d.uxf", id, which);
+        unlink(out + 4);
+    } else
         snprintf(out, n, "%s:127.%d.%d.%d:%d", tp, 64 + ((id >> 16) & 0x3f), (id >> 8) & 0xff, id & 0xff, 4711 + which);
 }
 
@@ -1340,6 +1487,7 @@ static void scenario(const char *params)
     param_get(params, "certs", g_certs, sizeof g_certs, "");
     g_gran_api = strcmp(param_get(params, "gran", b, sizeof b, "loop"), "api") == 0;
     g_dev_relay_only = strcmp(param_get(params, "dev", b, sizeof b, "all"), "relay") == 0;
+    g_cfault = (int)param_int(params, "cfault", 0);
     snprintf(g_legs, sizeof g_legs, "%s-%s", g_lc, g_ls);
     g_bytestream = g_lc[0] == 'b';
     if ((g_ls[0] == 'b') != g_bytestream)
@@ -1352,6 +1500,8 @@ static void scenario(const char *params)
     init_side(&S[0], "S0", 1, 0);
     init_side(&C[1], "C1", 0, 1);
     init_side(&S[1], "S1", 1, 1);
+    init_side(&C[2], "C2", 0, 2);
+    init_side(&S[2], "S2", 1, 2);
     for (int k = 0; k < MAXCONN; k++) {
         C[k].peer = &S[k];
         S[k].peer = &C[k];
@@ -1368,11 +1518,19 @@ static void scenario(const char *params)
     mk_addr(g_saddr, sizeof g_saddr, g_ls, 1);
 
     /* the real server */
-    struct xcm_attr_map *at = mk_attrs();
-    g_server = xcm_server_a(g_saddr, at);
-    xcm_attr_map_destroy(at);
-    if (!g_server)
-        mc_fail("internal/server-create", "xcm_server_a(%s): %s", g_saddr, errname(errno));
+    if (g_listen_at_start) {
+        struct xcm_attr_map *at = mk_attrs();
+        g_server = xcm_server_a(g_saddr, at);
+        xcm_attr_map_destroy(at);
+        if (!g_server)
+            mc_fail("internal/server-create", "xcm_server_a(%s): %s", g_saddr, errname(errno));
+    }
+    g_abort_efd = eventfd(0, EFD_NONBLOCK);
+    env_set_raw(g_abort_efd);
+    for (int i = 0; i < 4; i++) {
+        g_sync[i] = eventfd(0, EFD_NONBLOCK);
+        env_set_raw(g_sync[i]);
+    }
 
     /* the relay, set up as tools/xcmrelay/main.c does */
     unsigned char before[256];
@@ -1417,6 +1575,11 @@ static void scenario(const char *params)
     }
     mc_outcome("%s nrelay=%d", out, g_nrp);
     mc_count(0, g_relay_steps);
+    for (int w = 0; w < 2; w++) {
+        const char *a = w ? g_saddr : g_raddr;
+        if (!strncmp(a, "uxf:", 4))
+            unlink(a + 4);
+    }
 }
 
 int main(int argc, char **argv)
